@@ -85,7 +85,17 @@ func clientBases() []*pb.ClientConfig {
 	full.Socks5Authentication = []*pb.Auth{{User: proto.String("u"), Password: proto.String("p w")}}
 	bare := proto.Clone(min).(*pb.ClientConfig)
 	bare.RpcPort = nil
-	return []*pb.ClientConfig{min, full, bare}
+	out := []*pb.ClientConfig{min, full, bare}
+	// optional fields of the same type holding different values (or only one of them set)
+	for _, lan := range [][2]*bool{{proto.Bool(true), proto.Bool(false)}, {proto.Bool(false), proto.Bool(true)}, {nil, proto.Bool(true)}, {proto.Bool(true), nil}} {
+		c := proto.Clone(full).(*pb.ClientConfig)
+		c.Socks5ListenLAN, c.HttpProxyListenLAN = lan[0], lan[1]
+		c.RpcPort, c.HttpProxyPort = proto.Int32(8989), proto.Int32(8080)
+		out = append(out, c)
+	}
+	swapped := proto.Clone(full).(*pb.ClientConfig)
+	swapped.RpcPort, swapped.HttpProxyPort, swapped.Socks5Port = proto.Int32(1111), proto.Int32(2222), proto.Int32(3333)
+	return append(out, swapped)
 }
 
 func (c *ctx) checkClientPatch(kind string, base, patch *pb.ClientConfig, set map[string]bool) bool {
@@ -181,6 +191,6 @@ func clientPatchUnits(tier string, mk func(u *runner.U) *ctx) []runner.Unit {
 				}
 			}
 		}
-		u.Sample("three stored client configurations (two profiles; every optional field set; no rpcPort) x both file formats x every patch setting one or two of the ten top-level fields over boundary values (ports 0/1/65535, false, empty message, replaced / added profiles)")
+		u.Sample("eight stored client configurations (two profiles; every optional field set; no rpcPort; the two listen-LAN flags differing or only one set; three different ports) x both file formats x every patch setting one or two of the ten top-level fields over boundary values (ports 0/1/65535, false, empty message, replaced / added profiles)")
 	}}}
 }
